@@ -1396,20 +1396,21 @@ def plans(tier):
     deep_alt = [("prog", p, (None, 2)[i % 2]) for i, p in enumerate(DEEP_PROGRAMS)]
     p1 = prog_specs(1, BEH_FULL, (0, 1, 2), True, (None, 2, 0))
     p1b = prog_specs(1, BEH_FULL, (0, 1, 2), True, (None, 2))
-    p2 = prog_specs(2, BEH_FULL, (0, 1, 2), False, (None, 2))
-    p2s = prog_specs(2, BEH_SMALL, (1, 2), True, (None, 2))
     p2s1 = prog_specs(2, BEH_SMALL, (1, 2), False, (None, 2))
-    p3s = prog_specs(3, BEH_SMALL, (1, 2), False, (None, 2))
+    p2 = p2s = p3s = []
+    if not q:
+        p2 = prog_specs(2, BEH_FULL, (0, 1, 2), False, (None, 2))
+        p2s = prog_specs(2, BEH_SMALL, (1, 2), True, (None, 2))
+        p3s = prog_specs(3, BEH_SMALL, (1, 2), False, (2,))
     lib = PIPES + GENFUTS
     st1 = [s for s in p1b if make_model(s).stateless or make_model(s).precancelled]
     st2 = [s for s in p2s1 if make_model(s).stateless]
     stdeep = [("prog", p, e) for p in STATELESS_DEEP for e in (None, 2)]
     P = []
     # ---- mode clause: every model, uninterrupted, under each of the 7 observation modes
-    p3s2 = [x for x in p3s if x[2] == 2]
-    P.append(("modes-programs", "modes", p1 + (p2s if q else p2 + p3s2) + deep, None, None, None, False,
+    P.append(("modes-programs", "modes", p1 + (p2s1 if q else p2 + p3s) + deep, None, None, None, False,
               f"C01 family: 1 event ({len(BEH_FULL)} behaviours x 3 kinds x 3 times x 2 targets) x end{{None,2,0}}; "
-              + (f"2 events ({len(BEH_SMALL)} behaviours, 2 targets) x end{{None,2}}" if q else
+              + (f"2 events ({len(BEH_SMALL)} behaviours, 1 target) x end{{None,2}}" if q else
                  f"2 events ({len(BEH_FULL)} behaviours) x end{{None,2}}; 3 events ({len(BEH_SMALL)} behaviours) x end 2")
               + "; 6 hand-picked 3-event programs"))
     P.append(("modes-library", "modes", lib, None, None, None, False,
@@ -1419,19 +1420,19 @@ def plans(tier):
         P.append(("scripts-programs-wide", "scripts", p1b, ["control"], "A", 2, False,
                   "every 1-event program x end{None,2}; all scripts <= 2 over the 12-symbol alphabet (set A)"))
         P.append(("scripts-programs-wide", "scripts", p2s1, ["control"], "ext", 1, False,
-                  "every 2-event program (8 behaviours, 1 target) x end{None,2}; every single call of the 19-symbol alphabet"))
+                  f"every 2-event program ({len(BEH_SMALL)} behaviours, 1 target) x end{{None,2}}; every single call of the 19-symbol alphabet"))
     else:
         P.append(("scripts-programs-wide", "scripts", p1, ["control"], "ext", 2, False,
                   "every 1-event program x end{None,2,0}; all scripts <= 2 over the 19-symbol extended alphabet"))
         P.append(("scripts-programs-wide", "scripts", p1b, ["control"], "A", 3, False,
                   "every 1-event program x end{None,2}; all scripts <= 3 over the 12-symbol alphabet (set A)"))
         P.append(("scripts-programs-wide", "scripts", p2s, ["control"], "ext", 1, False,
-                  "every 2-event program (8 behaviours, 2 targets); every single call of the 19-symbol alphabet"))
+                  f"every 2-event program ({len(BEH_SMALL)} behaviours, 2 targets); every single call of the 19-symbol alphabet"))
         P.append(("scripts-programs-wide", "scripts", p2, ["control"], "pause", 1, False,
-                  "every 2-event program (24 behaviours); every single pause/step/resume/hook-pause call"))
+                  f"every 2-event program ({len(BEH_FULL)} behaviours); every single pause/step/resume/hook-pause call"))
     # ---- stepper: pause at EVERY position of the run, schedule while paused at every position
     P.append(("scripts-stepper", "stepper", p1b + (p2s1 if q else p2) + deep, ["control"], None, None, False,
-              "every 1-event program, every 2-event program (" + ("8" if q else "24") + "-behaviour alphabet) x end{None,2}, "
+              f"every 1-event program, every 2-event program ({len(BEH_SMALL) if q else len(BEH_FULL)}-behaviour alphabet) x end{{None,2}}, "
               "6 hand-picked programs"))
     P.append(("scripts-stepper", "stepper", lib, ["control", "all"], None, None, False, "2 pipelines, 3 generator/future models"))
     # ---- deep: full script trees on hand-picked programs
